@@ -9,11 +9,13 @@ import (
 	"path/filepath"
 	"sort"
 	"strings"
+	"sync/atomic"
 	"syscall"
 	"time"
 
 	"bazil.org/fuse"
 	"github.com/superfly/litefs"
+	"github.com/superfly/ltx"
 )
 
 func init() {
@@ -23,7 +25,7 @@ func init() {
 		Rule:  "(1) lock-table walk: on a real node with a database in rollback or WAL mode, 2-3 simulated processes issue seeded sequences of the lock requests SQLite's protocols are made of (PENDING/SHARED/RESERVED read, write, upgrade, downgrade, 2-byte and whole-file unlocks; DMS, WRITE, CKPT, RECOVER, CKPT+RECOVER, READ0-4 singly and as a range; close), interleaved in every order the seed produces with LiteFS's own write-lock attempts and releases (TryAcquireWriteLock), timed AcquireWriteLock users (checkpoint, recover, import) and out-of-protocol WAL writes. Every request's result is compared with an independent POSIX byte-range-lock specification of the client side (all-or-nothing per request, EAGAIN on conflict, plus the property's own rule that an exclusive CKPT is refused while another owner holds WRITE); LiteFS's write lock may only succeed when no client holds a read or write transaction lock, a failed attempt must leave the lock states unchanged, and while it is held no client can obtain SHARED/RESERVED (rollback) or a READ mark, WRITE, CKPT or RECOVER (WAL). Every database page write or truncation LiteFS performs outside a client's own system call is checked against the client lock table. (2) the multi-node fault simulation with the same internal-write monitor on every node, fed by the simulated kernel's own record of granted locks. evaluations = lock requests + internal write sections checked; distinct = distinct (mode, abstract lock-table state, request, result) tuples; non-trivial = run with >= 1 refused request and >= 1 internal write section",
 		Run:   runC11,
 		NonTrivial: func(r *Run) bool {
-			return r.Stats["c11.refused"] > 0 || r.Stats["c11.internal-write.checked"] > 0
+			return r.Stats["c11.refused"] > 0 || r.Stats["c11.internal-write.checked"] > 0 || r.Stats["c11.flip.checked"] > 0
 		},
 		Assumptions: []string{"the client side of the specification is POSIX fcntl semantics per lock byte as SQLite uses them; what LiteFS's internal owner holds is not assumed but constrained by the property's statements only"},
 		Real:        []string{"fuse DatabaseHandle/SHMHandle Lock/Unlock/Flush, litefs lock(), DB.TryLock/TryRLock/Unlock/CanLock, TryAcquireWriteLock/AcquireWriteLock, Checkpoint, Recover, Import, replica apply (scenario 2)"},
@@ -32,13 +34,199 @@ func init() {
 }
 
 func runC11(r *Run) {
-	if r.Tape.Pick([]int{7, 3}) == 0 {
+	switch r.Tape.Pick([]int{13, 6, 1}) {
+	case 0:
 		r.Cfg["scenario"] = "walk"
 		c11Walk(r)
-	} else {
+	case 1:
 		r.Cfg["scenario"] = "cluster"
 		c11Cluster(r)
+	default:
+		r.Cfg["scenario"] = "mode-flip"
+		c11ModeFlip(r)
 	}
+}
+
+// c11ModeFlip: a replica applies the transaction that takes a WAL database back
+// to a rollback journal (or the other way round) while an application opens a
+// new connection on the replica. The applier is held up (a stalled thread)
+// at a seeded page operation; the new connection does what SQLite does - SHARED,
+// page 1, then the locks of the journal mode page 1 names - and, if it is not
+// refused, reads the whole database. Whatever it reads must be the committed
+// image of the position the replica reports while the connection holds its locks.
+func c11ModeFlip(r *Run) {
+	t := r.Tape
+	pr := newPair(r, t.Chance(1, 2), 0)
+	if !pr.open() {
+		return
+	}
+	h := &hist{r: r, n: pr.p, name: "db"}
+	h.pageSize = []uint32{512, 4096}[t.Next(2)]
+	h.jmode = []string{ModeDelete, ModeTruncate, ModePersist}[t.Next(3)]
+	h.maxPages = 12
+	toRollback := t.Chance(2, 3)
+	r.Cfg["page_size"], r.Cfg["to_rollback"] = h.pageSize, toRollback
+	if !h.openConns(1) {
+		return
+	}
+	h.commit(t)
+	if r.Failed() {
+		return
+	}
+	if h.ref.N() < 4 {
+		c := h.conns[0]
+		c.Mode = h.jmode
+		res := c.WriteTx(TxProgram{NewSize: uint32(t.Range(4, 10)), Outcome: OutCommit}, h.ref)
+		if res.Outcome != OutCommit {
+			r.Inconclusive("growing the database was refused at %s: %v", res.FailedAt, res.Errno)
+			return
+		}
+		h.ref = res.After
+	}
+	if toRollback {
+		if !h.toWAL() {
+			return
+		}
+		for i := t.Range(1, 3); i > 0 && !r.Failed(); i-- {
+			h.commit(t)
+		}
+	}
+	if r.Failed() || !pr.waitReplica(h.name, 10*time.Second) {
+		return
+	}
+	rdb := pr.rep.Store.DB(h.name)
+	if rdb == nil {
+		return
+	}
+	images := map[ltx.Pos]*Image{rdb.Pos(): h.ref}
+	// the applier stalls at its stopAt-th page operation
+	stopAt := int32(t.Range(1, int(h.ref.N())+1))
+	var ops atomic.Int32
+	pr.rep.SetPageOpHook(func(db *litefs.DB, op string, pgno uint32) error {
+		if ops.Add(1) == stopAt {
+			r.Count("fault.applier_stalled")
+			time.Sleep(40 * time.Millisecond)
+		}
+		return nil
+	})
+	defer pr.rep.SetPageOpHook(nil)
+	// the application on the replica. In one run out of four the connection is
+	// "in flight" when the applier takes its locks: it already holds SHARED and
+	// has not read page 1 yet (in SQLite a handful of system calls lie between
+	// the two).
+	inFlight := t.Chance(1, 4)
+	r.Cfg["in_flight_open"] = inFlight
+	oracle := "c11.flip"
+	if inFlight {
+		oracle = "c11.flip.in-flight-open"
+	}
+	done := make(chan struct{})
+	early := make(chan struct{})
+	go func() {
+		defer close(done)
+		c := pr.rep.NewConn(h.name, h.jmode, h.pageSize)
+		if c.Open() != 0 {
+			close(early)
+			return
+		}
+		defer c.Close()
+		if inFlight {
+			if c.LockShared() != 0 {
+				close(early)
+				return
+			}
+			defer c.UnlockAll()
+		}
+		close(early)
+		for dl := time.Now().Add(5 * time.Second); ops.Load() < stopAt; time.Sleep(time.Millisecond) {
+			if time.Now().After(dl) {
+				return
+			}
+		}
+		if !inFlight {
+			if c.LockShared() != 0 {
+				r.Count("c11.flip.reader-refused")
+				return
+			}
+			defer c.UnlockAll()
+		}
+		hdr, ok, e := c.ReadHeader()
+		if e != 0 || !ok {
+			return
+		}
+		var im *Image
+		pos := rdb.Pos()
+		if hdr.WAL {
+			if c.WalOpen() != 0 {
+				r.Count("c11.flip.reader-refused")
+				return
+			}
+			if _, e := c.WalBeginRead(); e != 0 {
+				r.Count("c11.flip.reader-refused")
+				return
+			}
+			pos = rdb.Pos()
+			im, e = c.WalReadImageLocked()
+			c.WalEndRead()
+		} else {
+			im, e = c.ReadImageLocked()
+		}
+		if e != 0 || im == nil {
+			return
+		}
+		r.Count("c11.flip.reader-read")
+		if after := rdb.Pos(); after != pos {
+			r.Failf(oracle, "a connection opened on the replica while it applied the journal-mode change held its read locks (page 1 said WAL=%v) and the replica's position moved from %s to %s underneath it", hdr.WAL, pos, after)
+			return
+		}
+		want, known := images[pos]
+		if !known {
+			return
+		}
+		if d := DiffImages(im, want); d != "" {
+			r.Failf(oracle, "a connection opened on the replica while it applied the journal-mode change (applier stalled at its page operation %d; page 1 said WAL=%v) read, under its locks, something else than the image of position %s: %s", stopAt, hdr.WAL, pos, d)
+		}
+	}()
+	<-early
+	// the primary changes the journal mode, touching every page
+	c := h.conns[0]
+	var res TxResult
+	all := make([]uint32, 0, h.ref.N())
+	for pg := uint32(1); pg <= h.ref.N(); pg++ {
+		all = append(all, pg)
+	}
+	if toRollback {
+		if at, e := c.WalCloseLast(h.ref); e != 0 || at != "" {
+			r.Inconclusive("closing the WAL as the last connection failed at %q: %v", at, e)
+			return
+		}
+		c.UnlockAll()
+		c.Mode = h.jmode
+		res = c.WriteTx(TxProgram{NewSize: h.ref.N(), Outcome: OutCommit, SetWAL: 2, Modify: all}, h.ref)
+	} else {
+		c.Mode = h.jmode
+		res = c.WriteTx(TxProgram{NewSize: h.ref.N(), Outcome: OutCommit, SetWAL: 1, Modify: all}, h.ref)
+	}
+	if res.Outcome != OutCommit {
+		r.Inconclusive("the journal-mode change was refused at %s: %v", res.FailedAt, res.Errno)
+		return
+	}
+	h.ref = res.After
+	images[pr.p.Store.DB(h.name).Pos()] = h.ref
+	select {
+	case <-done:
+	case <-time.After(20 * time.Second):
+		r.Failf("c11.flip", "the connection on the replica has not finished 20 s after the journal-mode change")
+		return
+	}
+	if r.Failed() {
+		return
+	}
+	if !r.Check(pr.waitReplica(h.name, 10*time.Second), "c11.flip", "the replica does not reach the primary's position after the journal-mode change") {
+		return
+	}
+	r.Count("c11.flip.checked")
+	r.State("flip/%v/%d", toRollback, stopAt)
 }
 
 const (
